@@ -1,9 +1,14 @@
 /-
   C01 — Round trip: decoding an encoding returns the original value.
 
-  Full statement (kept visible; proved so far for the order-free fragment `plain`):
+  Full statement (kept visible).  Proved for every well-formed type whose set elements, map keys
+  and index-set elements are *key types* (`keysOk`; a key type is one whose canonical form is
+  the value itself — no hash collection, deque, skipped field or init hook inside the key).  What
+  is missing from the full statement: keys that themselves contain keyed collections or deques
+  (e.g. `BTreeSet<BTreeSet<u8>>`), where canonicalisation and ordering do not commute
+  syntactically.  Hence the `_partial` suffix is kept.
 -/
-import BorshModel.Lemmas.RoundtripMain
+import BorshModel.Lemmas.RoundtripKeyed
 namespace Borsh
 
 /-- C01 at one type: whatever serializes successfully decodes, through the whole-input entry
@@ -27,15 +32,15 @@ theorem toVec_ok {t : Ty} {v : Val} {bs : Bytes} (h : toVec t v = .ok bs) :
 /-- `deserialize` on the encoding followed by anything returns the canonical value and leaves
 exactly what followed ("consumes all input" in its general form). -/
 theorem C01_roundtrip_stream_partial (st : Bool) (t : Ty) (v : Val) (bs rest : Bytes)
-    (hp : plain t = true) (hw : WfTy t = true) (hv : HasTy t v = true)
+    (hp : keysOk t = true) (hw : WfTy t = true) (hv : HasTy t v = true)
     (he : toVec t v = .ok bs) :
     deserialize st t (bs ++ rest) = .ok (canon t v, rest) := by
   obtain ⟨hok, hb⟩ := toVec_ok he
   rw [← hb]
-  exact roundtrip_plain st t hp hw v hv hok rest
+  exact roundtrip_all st t hp hw v hv hok rest
 
-/-- C01 for every plain well-formed type, every value, both strictness settings. -/
-theorem C01_roundtrip_partial (t : Ty) (hp : plain t = true) (hw : WfTy t = true) : C01_at t := by
+/-- C01 for every well-formed type whose set, map and index-set keys are key types (`keysOk`), every value, both strictness settings. -/
+theorem C01_roundtrip_partial (t : Ty) (hp : keysOk t = true) (hw : WfTy t = true) : C01_at t := by
   intro st v bs hv he
   have := C01_roundtrip_stream_partial st t v bs [] hp hw hv he
   simp only [List.append_nil] at this
@@ -58,5 +63,18 @@ example :
       (fromSlice true t [2, 0, 0, 0, 0, 1, 254, 255, 2, 0, 0, 0, 104, 105]).okVal
         (.list [.variant 0 [], .variant 1 [.list [.int (-2), .bool false, .blob [104, 105]]]])) = true := by
   decide
+
+/-- non-vacuity for the keyed part: `HashMap<String, BTreeSet<u16>>` written from an unsorted
+entry list comes back sorted by key, in strict mode too -/
+example :
+    let t := Ty.map .hashMap (.str .string) (.set .btreeSet (.int .u16))
+    let v := Val.list [.list [.blob [98], .list [.int 1, .int 2]], .list [.blob [97], .list []]]
+    (keysOk t && WfTy t && HasTy t v &&
+      (toVec t v).okBytes [2, 0, 0, 0, 1, 0, 0, 0, 97, 0, 0, 0, 0,
+                           1, 0, 0, 0, 98, 2, 0, 0, 0, 1, 0, 2, 0] &&
+      (fromSlice true t [2, 0, 0, 0, 1, 0, 0, 0, 97, 0, 0, 0, 0,
+                         1, 0, 0, 0, 98, 2, 0, 0, 0, 1, 0, 2, 0]).okVal
+        (.list [.list [.blob [97], .list []], .list [.blob [98], .list [.int 1, .int 2]]])) = true := by
+  decide +kernel
 
 end Borsh
